@@ -67,6 +67,12 @@ func (w *World) plantForeign() error {
 
 // checkForeign: the planted entries are exactly as they were.
 func (w *World) checkForeign(what string) bool {
+	for _, f := range w.foreignIn {
+		if b, err := os.ReadFile(f); err != nil || string(b) != foreignText {
+			w.R.Failf("%s: %s, a file somebody else put into a content directory, is gone or changed (%v)", what, f, err)
+			return false
+		}
+	}
 	if !w.Case.Foreign {
 		return true
 	}
